@@ -18,6 +18,11 @@ SCOPE = (f"{A}.features", f"{A}.lmeasure", f"{A}.sholl", f"{A}.volume", f"{A}.fe
 
 
 def run(ctx, col, tier):
+    # a sample exactly on a sampling sphere must not be counted for both of its segments: rotating the neuron moves it off the sphere by a rounding error and the profile changes
+    from .c10 import sholl_chain_rule as _sholl_chain
+    col.guard(_sholl_chain, ctx, col)
+    from ..rules import orderkind as _orderkind
+    _orderkind.run(ctx, col, ('swcgeom.analysis.features', 'swcgeom.analysis.lmeasure', 'swcgeom.analysis.sholl', 'swcgeom.analysis.feature_extractor'))
     from ..rules import negidx as _negidx
     _negidx.run(ctx, col, ('swcgeom.analysis.features', 'swcgeom.analysis.lmeasure', 'swcgeom.analysis.sholl', 'swcgeom.analysis.feature_extractor', 'swcgeom.core.tree', 'swcgeom.core.node', 'swcgeom.core.path', 'swcgeom.core.branch', 'swcgeom.transforms.tree'))
     from ..rules import smalllints as _small
